@@ -262,7 +262,7 @@ PLANS["C13"] = {
                     "allocation-size arguments of int! / uint! are kept <= 512 bits"],
     "require": [need_set("words_covered", 166), need_set("words_both_succeeded", 150), need("pairs_both_succeeded", 100000),
                 need("pairs_both_failed", 100000), need("tagop:insert-tag", 20000), need("tagop:with-tags", 10000),
-                need_set("tag_positions", 7), need_set("arg_classes", 13)],
+                need_set("tag_positions", 7), need_set("arg_classes", 20), need("keyed_map_cases", 30000)],
 }
 
 PLANS["C10"] = {
